@@ -262,6 +262,15 @@ func (p *provider) updateRuleSet(oldObj, newObj any) {
 	newRS := newObj.(*v1alpha4.RuleSet) // nolint: forcetypeassert
 	oldRS := oldObj.(*v1alpha4.RuleSet) // nolint: forcetypeassert
 
+	if oldRS.UID != newRS.UID {
+		// not an update of the known object: it has been deleted and a new one has been created under
+		// the same name while the watch was broken (noticed at the relist only)
+		p.deleteRuleSet(oldRS)
+		p.addRuleSet(newRS)
+
+		return
+	}
+
 	if oldRS.Generation == newRS.Generation {
 		// we're only interested in Spec updates. Changes in metadata or status are not of relevance
 		return
